@@ -1,6 +1,7 @@
 #!/bin/bash
 # tools/seed_try.sh <seed-name> <check-id> [tier] — apply a stored seed to /repo, run one check, undo.
 name=$1; id=$2; tier=${3:-quick}
+export VERIF_EVIDENCE_DIR=/verif/.work/evidence-scratch  # keep the evidence of the unchanged tree
 p=/verif/seeded/$name/patch.diff
 git -C /repo diff --quiet || { echo "/repo not clean"; exit 2; }
 git -C /repo apply $p || exit 2
